@@ -26,8 +26,24 @@ CHUNK = 20
 
 SHAPES = {
     "sphere": [0, 2, 3], "capsule": [0, 2], "ellipsoid": [0, 2, 3], "disk": [0, 2, 3], "cone": [0, 2], "cylinder": [0, 2],
-    "box": [0, 2, 3, 4], "mesh": [0, 2, 3, 4, 5, 6],
+    "box": [0, 2, 3, 4], "mesh": [0, 2, 3, 4, 5, 6, 7],
 }
+
+
+# sizes used by this check only (index 100 + k): ellipsoid with radii equal up to 1e-5 relative (not a sphere), cylinder with
+# radius = length / 2 (bounding-sphere early-outs are largest there)
+EXTRA = {"ellipsoid": [(0.5, 0.5 * (1 + 4e-6), 0.5 * (1 - 6e-6))], "cylinder": [(0.5, 1.0)]}
+# mesh variant 'meshlib': the same vertex clouds with the triangles that the library's own make_convex_mesh produces
+MESHLIB = [5, 6, 7]
+
+
+def size_of(t, s):
+    return EXTRA[t][s - 100] if s >= 100 else sc.SIZES["mesh" if t == "meshlib" else t][s]
+
+
+def build_shape(t, s, o, centre):
+    T = sc.pose(o, centre)
+    return sc.build_explicit("mesh" if t == "meshlib" else t, size_of(t, s), T)
 
 
 def warmup():
@@ -49,6 +65,11 @@ def enumerate_states(tier, seed):
                 for o in range(len(sc.ROTS), len(sc.ALL_ROTS)):
                     for f in (0, 2):
                         states.append({"t": t, "s": s, "o": o, "f": f, "dense": 1})
+    for t, ss in (("ellipsoid", [100]), ("cylinder", [100]), ("meshlib", MESHLIB)):
+        for s in ss:
+            for o in range(len(sc.ROTS)):
+                for f in (0, 3):
+                    states.append({"t": t, "s": s, "o": o, "f": f})
     return states, {"bound_completed": "8 predicates x sizes in domain P x 32 orientations x %s offsets, ~300 constructed points each%s"
                                        % ("3 of 4 (seed-selected)" if tier == "quick" else "4",
                                           " + dense family 672 orientations x 2 offsets, ~1400 constructed points each" if tier == "thorough" else ""),
@@ -62,7 +83,13 @@ def _viol(entry, kind, cls, detail):
 def predicate(t, s, o, centre):
     from distance3d import containment_test as ct
     T = sc.pose(o, centre)
-    sz = sc.SIZES[t][s]
+    sz = size_of(t, s)
+    if t == "meshlib":
+        from distance3d import mesh as dmesh
+        v, _ = sc.mesh_data(sz[0])
+        vv = np.ascontiguousarray(v * sz[1])
+        tri = dmesh.make_convex_mesh(vv)
+        return lambda P: ct.points_in_convex_mesh(P, T, vv, tri)
     if t == "sphere":
         return lambda P: ct.points_in_sphere(P, centre.copy(), float(sz))
     if t == "capsule":
@@ -86,7 +113,7 @@ def predicate(t, s, o, centre):
 def dist_fn(t, s, o, centre):
     from distance3d import distance as D
     T = sc.pose(o, centre)
-    sz = sc.SIZES[t][s]
+    sz = size_of(t, s)
     if t == "disk":
         return lambda p: D.point_to_disk(p, centre.copy(), float(sz), np.ascontiguousarray(T[:3, 2]))[0]
     if t == "box":
@@ -101,7 +128,7 @@ def dist_fn(t, s, o, centre):
 def run_state(desc):
     t, s, o, f = desc["t"], desc["s"], desc["o"], desc["f"]
     centre = sc.OFFSETS[f].copy()
-    col, ref = sc.build(t, s, o, centre)
+    col, ref = build_shape(t, s, o, centre)
     L = max(1.0, ref.size(), float(np.linalg.norm(centre)))
     tol = 1e-9 * L
     cls = t
